@@ -45,6 +45,9 @@ m('C20', 'c20-options-captured-at-import', 'fst_options', "_OPTIONS = _ThreadOpt
 m('C20', 'silent-options-lambda', 'fst_options', "_OPTIONS = _ThreadOptions()\n", "_OPTIONS = _ThreadOptions()\n_defaults_now = lambda: _OPTIONS.__dict__\n", 'silent', 'dereferenced at call time')
 m('C01', 'c01-elif-without-owner-test', 'slice_stmtlike', "b[0].__class__ is If and tgt_fst.a.__class__ is If)", "b[0].__class__ is If)", 'R1.8', 'elif written into the else of a for / while / try')
 m('C12', 'c12-except-star-not-refused-first', 'fst_put_one', "        if self.is_except_star():  # this is also checked in the info func, but we need to know now because can't delete type from this\n            raise ValueError('cannot delete ExceptHandler.type from except*')\n\n", "", 'R12.3', 'premise of the reviewed entry removed')
+m('C03', 'c03-view-snapshot', 'view', "        self._start = start\n        self._stop = stop\n", "        self._start = start\n        self._stop = stop\n        self._len0 = len(getattr(base.a, field, ()))\n", 'R3.10', 'a second coordinate computed from the tree')
+m('C03', 'silent-view-plain-attr', 'view', "        self._start = start\n        self._stop = stop\n", "        self._start = start\n        self._stop = stop\n        self._tag = None\n", 'silent', 'an attribute that is not computed from the tree')
+m('C02', 'c02-memo-key-drops-param', 'fst_misc', "    key = f'isdelseq{field}{delims}'\n", "    key = f'isdelseq{field}'\n", 'R2.9', 'two delimiter questions share one memo slot')
 m('C03', 'c03-view-idx-as-base', 'view', "            self.base = self.base._put_one(code, start + idx_start, self.field, ret_child=False)", "            self.base = self.base._put_one(code, idx_start, self.field, ret_child=False)", 'R3.5')
 m('C03', 'c03-base-clipped-at-zero', 'view', "                self._stop = max(start, stop - 1)", "                self._stop = max(0, stop - 1)", 'R3.5')
 m('C03', 'c03-view-idx-renamed', 'view', "            self.base = self.base._put_one(code, start + idx_start, self.field, ret_child=False)", "            base_idx = start + idx_start\n            self.base = self.base._put_one(code, base_idx, self.field, ret_child=False)", 'silent', 'same index through a local')
